@@ -55,7 +55,11 @@ REQUIRED_THEOREMS = ["no_handler_before_hsOk", "no_cleartext_on_dtls_session", "
                      "queued_con_one_nack_on_failure", "ledger_before_established",
                      "queued_first_flush_in_order_once_on_success", "icmp_notification_is_extra",
                      "newClient_start", "endpoint_start", "newClientTls_start", "accept_start",
-                     "queued_delivered_in_order_once_on_success", "first_transmissions_in_order"]
+                     "queued_delivered_in_order_once_on_success", "first_transmissions_in_order",
+                     "nack_ledger_any_history", "queued_not_nacked_while_held", "double_report_only_first_inflight",
+                     "queued_con_nacked_on_later_failure", "queued_con_delivered_once_or_nacked",
+                     "icmp_report_names_nothing_queued_trace", "icmp_report_names_no_queued_message",
+                     "d19a_first_inflight_reported_twice"]
 RULE = ("one line = one whole scenario with the REAL GnuTLS on both sides in one process (virtual clock for libcoap and GnuTLS, "
         "scripted wire): a server context with a DTLS endpoint configured by coap_context_set_psk2 (default key, identity table, "
         "hint, SNI table) and a client session from coap_new_client_session_psk2 (identity, key, hint callback, SNI); credential "
